@@ -14,6 +14,7 @@ use std::sync::{Arc, Mutex};
 
 use fast_qr::convert::image::ImageBuilder;
 use fast_qr::convert::svg::SvgBuilder;
+use fast_qr::convert::Builder as _;
 use fast_qr::{QRBuilder, QRCode};
 use serde::{Deserialize, Serialize};
 
@@ -48,6 +49,9 @@ pub enum Op {
     /// a brand-new builder with each setter called once, built once
     BuildFresh { input: u8, mode: Option<u8>, ecl: Option<u8>, version: Option<u8>, mask: Option<u8>, out: u8 },
     CloneQr { from: u8, to: u8 },
+    /// a copy of a QR code with one module changed by hand (`QRCode::data` is public): the value
+    /// bit (xor 1) or a module-type bit (xor 2, 4, 8) of module `pos % size²`
+    TweakQr { from: u8, to: u8, pos: u32, xor: u8 },
     NewSvg { slot: u8 },
     SvgSet { slot: u8, s: RSetter },
     SvgRender { slot: u8, qr: QrRef },
@@ -60,6 +64,13 @@ pub enum Op {
         #[serde(default, skip_serializing_if = "std::ops::Not::not")]
         print: bool,
     },
+    /// one scalar setter called `n` times in a row on a QR builder (`what` 0: mask), an SVG
+    /// renderer (1: margin) or an image renderer (2: margin): only the last value counts
+    SetBurst { what: u8, slot: u8, n: u64 },
+    /// the same builder built `n` times in a row: every result must equal the first
+    Burst { slot: u8, n: u32 },
+    /// the same SVG renderer rendering the same QR code `n` times in a row
+    RenderBurst { slot: u8, qr: QrRef, n: u32 },
     Nop,
 }
 
@@ -72,6 +83,7 @@ impl Op {
             Op::BuildShared { .. } => "BuildShared",
             Op::BuildFresh { .. } => "BuildFresh",
             Op::CloneQr { .. } => "CloneQr",
+            Op::TweakQr { .. } => "TweakQr",
             Op::NewSvg { .. } => "NewSvg",
             Op::SvgSet { .. } => "SvgSet",
             Op::SvgRender { .. } => "SvgRender",
@@ -79,14 +91,17 @@ impl Op {
             Op::ImgSet { .. } => "ImgSet",
             Op::ImgRender { .. } => "ImgRender",
             Op::Term { .. } => "Term",
+            Op::SetBurst { .. } => "SetBurst",
+            Op::Burst { .. } => "Burst",
+            Op::RenderBurst { .. } => "RenderBurst",
             Op::Nop => "Nop",
         }
     }
     pub fn is_build(&self) -> bool {
-        matches!(self, Op::Build { .. } | Op::BuildShared { .. } | Op::BuildFresh { .. })
+        matches!(self, Op::Build { .. } | Op::BuildShared { .. } | Op::BuildFresh { .. } | Op::Burst { .. })
     }
     pub fn is_render(&self) -> bool {
-        matches!(self, Op::SvgRender { .. } | Op::ImgRender { .. } | Op::Term { .. })
+        matches!(self, Op::SvgRender { .. } | Op::ImgRender { .. } | Op::Term { .. } | Op::RenderBurst { .. })
     }
 }
 
@@ -222,6 +237,9 @@ impl OracleStats {
 #[derive(Clone, Debug, Serialize, Deserialize)]
 pub struct OneSpec {
     pub cfg: QrCfg,
+    /// hand edits applied to the built QR code before rendering: (module index, xor)
+    #[serde(default, skip_serializing_if = "Vec::is_empty")]
+    pub tweaks: Vec<(u32, u8)>,
     /// ("svg" | "png" | "pixmap" | "term", canonical setter list)
     pub render: Option<(String, Vec<RSetter>)>,
 }
@@ -367,6 +385,8 @@ impl Oracle {
 
 struct LocalQr {
     qr: Box<QRCode>,
+    /// hand edits this QR code carries on top of what its configuration builds
+    tweaks: Vec<(u32, u8)>,
     digest: String,
     /// the configuration this QR code was built from (provenance, for on-demand pristine checks)
     cfg: QrCfg,
@@ -737,6 +757,7 @@ fn task_body(sim: &Arc<Sim>, oracle: &Arc<Mutex<Oracle>>, shared: &Arc<Shared>, 
 
 struct QrView<'a> {
     qr: &'a QRCode,
+    tweaks: &'a [(u32, u8)],
     digest: &'a str,
     origin: String,
     cfg: &'a QrCfg,
@@ -746,6 +767,7 @@ fn resolve_qr<'a>(r: QrRef, local: &'a Local, shared: &'a Shared) -> Option<QrVi
     match r {
         QrRef::Local(s) => local.qrs[(s as usize) % N_QR_SLOTS].as_ref().map(|q| QrView {
             qr: &q.qr,
+            tweaks: &q.tweaks,
             digest: q.digest.as_str(),
             origin: format!("local {}", s),
             cfg: &q.cfg,
@@ -756,6 +778,7 @@ fn resolve_qr<'a>(r: QrRef, local: &'a Local, shared: &'a Shared) -> Option<QrVi
             }
             shared.qrs[(s as usize) % shared.qrs.len()].as_ref().map(|(q, d, c)| QrView {
                 qr: q,
+                tweaks: &[],
                 digest: d.as_str(),
                 origin: format!("shared {}", s),
                 cfg: c,
@@ -850,11 +873,166 @@ fn exec_op(
             sched::op_end(sim, id);
             finish_build(oracle, r, &cfg, id, op_index, kind, local, *out)
         }
+        Op::SetBurst { what, slot, n } => {
+            let n = (*n).max(1);
+            match *what % 3 {
+                0 => {
+                    if let Some((b, m)) = local.builders[(*slot as usize) % N_BUILDER_SLOTS].as_mut() {
+                        for i in 0..n {
+                            b.mask(mask_of((i % 8) as u8));
+                            if i & 0xff_ffff == 0xff_ffff {
+                                sched::hook("op:boundary"); // a sign of life for the hang watchdog
+                            }
+                        }
+                        m.apply(&BSetter::Mask(((n - 1) % 8) as u8));
+                    }
+                }
+                1 => {
+                    if let Some((b, m)) = local.svgs[(*slot as usize) % N_RENDER_SLOTS].as_mut() {
+                        for i in 0..n {
+                            b.margin((i % 5) as usize);
+                            if i & 0xff_ffff == 0xff_ffff {
+                                sched::hook("op:boundary");
+                            }
+                        }
+                        m.apply(&RSetter::Margin(((n - 1) % 5) as usize), false);
+                    }
+                }
+                _ => {
+                    if let Some((b, m)) = local.imgs[(*slot as usize) % N_RENDER_SLOTS].as_mut() {
+                        for i in 0..n {
+                            b.margin((i % 5) as usize);
+                            if i & 0xff_ffff == 0xff_ffff {
+                                sched::hook("op:boundary");
+                            }
+                        }
+                        m.apply(&RSetter::Margin(((n - 1) % 5) as usize), true);
+                    }
+                }
+            }
+            oracle.lock().unwrap().stats.probe("setter_burst");
+            false
+        }
+        Op::Burst { slot, n } => {
+            let Some((b, m)) = local.builders[(*slot as usize) % N_BUILDER_SLOTS].as_ref() else {
+                return false;
+            };
+            let cfg = m.clone();
+            let key = cfg.key();
+            sched::op_begin(sim, id, crash);
+            let mut first: Option<Outcome> = None;
+            let mut bad: Option<(u32, Outcome)> = None;
+            let mut died = false;
+            // long bursts are for small symbols: the cost of one build grows with its area
+            let mut n_eff = *n;
+            for i in 0..*n {
+                if i >= n_eff {
+                    break;
+                }
+                // the first few calls and every 64th are interleaved with the other tasks as
+                // usual; the rest of a long burst runs without consulting the scheduler
+                sched::set_quiet(i >= 4 && i % 64 != 0);
+                let r = catch_unwind(AssertUnwindSafe(|| b.build()));
+                sched::set_quiet(false);
+                let outcome = match r {
+                    Ok(res) => {
+                        if i == 0 {
+                            if let Ok(q) = &res {
+                                n_eff = n_eff.min((40_000_000 / (q.size * q.size).max(1)) as u32).max(4);
+                            }
+                        }
+                        build_outcome(&res)
+                    }
+                    Err(p) => classify_panic(p),
+                };
+                if outcome.is_died() {
+                    died = true;
+                    break;
+                }
+                match &first {
+                    None => first = Some(outcome),
+                    Some(f) => {
+                        if *f != outcome {
+                            bad = Some((i, outcome));
+                            break;
+                        }
+                    }
+                }
+            }
+            sched::op_end(sim, id);
+            let mut o = oracle.lock().unwrap();
+            o.stats.probe("burst_builds");
+            if let Some(f) = &first {
+                o.observe_spec(&key, f, id, op_index, kind, false, Some(OneSpec { cfg: cfg.clone(), tweaks: vec![], render: None }));
+            }
+            if let (Some(f), Some((i, got))) = (&first, bad) {
+                o.violate(
+                    "I5_repeated_build_differs",
+                    kind,
+                    id,
+                    op_index,
+                    format!("state {}: build number {} of {} in a row gave {} but the first gave {}", key, i + 1, n, got.short(), f.short()),
+                );
+            }
+            died
+        }
+        Op::RenderBurst { slot, qr, n } => {
+            let Some((b, m)) = local.svgs[(*slot as usize) % N_RENDER_SLOTS].as_ref() else {
+                return false;
+            };
+            if m.has_panicky_shape() {
+                return false;
+            }
+            let Some(v) = resolve_qr(*qr, local, shared) else {
+                return false;
+            };
+            let key = format!("R|svg|{}|{}", m.key(), v.digest);
+            let spec = Some(OneSpec { cfg: v.cfg.clone(), tweaks: v.tweaks.to_vec(), render: Some(("svg".into(), m.canonical_setters())) });
+            CB_PANIC_AT.with(|c| c.set(None));
+            sched::op_begin(sim, id, crash);
+            let mut first: Option<Outcome> = None;
+            let mut bad: Option<(u32, Outcome)> = None;
+            let mut died = false;
+            let n_eff = (*n).min((20_000_000 / (v.qr.size * v.qr.size).max(1)) as u32).max(4);
+            for i in 0..n_eff {
+                sched::set_quiet(i >= 4 && i % 64 != 0);
+                let outcome = render_svg_outcome(b, v.qr);
+                sched::set_quiet(false);
+                if outcome.is_died() {
+                    died = true;
+                    break;
+                }
+                match &first {
+                    None => first = Some(outcome),
+                    Some(f) => {
+                        if *f != outcome {
+                            bad = Some((i, outcome));
+                            break;
+                        }
+                    }
+                }
+            }
+            sched::op_end(sim, id);
+            if let (Some(f), Some((i, got))) = (&first, &bad) {
+                oracle.lock().unwrap().violate(
+                    "I1_repeated_render_differs",
+                    kind,
+                    id,
+                    op_index,
+                    format!("state {}: render number {} of {} in a row gave {} but the first gave {}", key, i + 1, n, got.short(), f.short()),
+                );
+            }
+            oracle.lock().unwrap().stats.probe("burst_renders");
+            match first {
+                Some(f) => finish_render(oracle, &key, f, &v, id, op_index, kind, spec) || died,
+                None => died,
+            }
+        }
         Op::CloneQr { from, to } => {
             let f = (*from as usize) % N_QR_SLOTS;
             let t = (*to as usize) % N_QR_SLOTS;
             if let Some(q) = local.qrs[f].as_ref() {
-                let c = LocalQr { qr: Box::new((*q.qr).clone()), digest: q.digest.clone(), cfg: q.cfg.clone() };
+                let c = LocalQr { qr: Box::new((*q.qr).clone()), tweaks: q.tweaks.clone(), digest: q.digest.clone(), cfg: q.cfg.clone() };
                 let d = hex128(qr_digest(&c.qr));
                 if d != c.digest {
                     oracle.lock().unwrap().violate(
@@ -866,6 +1044,22 @@ fn exec_op(
                     );
                 }
                 local.qrs[t] = Some(c);
+            }
+            false
+        }
+        Op::TweakQr { from, to, pos, xor } => {
+            let f = (*from as usize) % N_QR_SLOTS;
+            let t = (*to as usize) % N_QR_SLOTS;
+            if let Some(q) = local.qrs[f].as_ref() {
+                let mut qr = Box::new((*q.qr).clone());
+                let n = (qr.size * qr.size).max(1);
+                let idx = (*pos as usize) % n;
+                qr.data[idx].0 ^= *xor & 0x0f;
+                let mut tweaks = q.tweaks.clone();
+                tweaks.push((idx as u32, *xor & 0x0f));
+                let digest = hex128(qr_digest(&qr));
+                oracle.lock().unwrap().stats.probe("qr_tweaked_by_hand");
+                local.qrs[t] = Some(LocalQr { qr, tweaks, digest, cfg: q.cfg.clone() });
             }
             false
         }
@@ -900,7 +1094,7 @@ fn exec_op(
             };
             let key = format!("R|svg|{}|{}", m.key(), v.digest);
             // a panicking callback is a harness-side fault, not part of the model: no pristine spec then
-            let spec = if m.has_panicky_shape() { None } else { Some(OneSpec { cfg: v.cfg.clone(), render: Some(("svg".into(), m.canonical_setters())) }) };
+            let spec = if m.has_panicky_shape() { None } else { Some(OneSpec { cfg: v.cfg.clone(), tweaks: v.tweaks.to_vec(), render: Some(("svg".into(), m.canonical_setters())) }) };
             CB_CALLS.with(|c| c.set(0));
             CB_PANIC_AT.with(|c| c.set(cb_panic_at));
             sched::op_begin(sim, id, crash);
@@ -927,7 +1121,7 @@ fn exec_op(
             }
             let rk = if *pixmap { "pixmap" } else { "png" };
             let key = format!("R|{}|{}|{}", rk, m.key(), v.digest);
-            let spec = Some(OneSpec { cfg: v.cfg.clone(), render: Some((rk.into(), m.canonical_setters())) });
+            let spec = Some(OneSpec { cfg: v.cfg.clone(), tweaks: v.tweaks.to_vec(), render: Some((rk.into(), m.canonical_setters())) });
             sched::op_begin(sim, id, crash);
             let outcome = render_img_outcome(b, v.qr, *pixmap);
             sched::op_end(sim, id);
@@ -939,7 +1133,7 @@ fn exec_op(
             };
             let rk = if *print { "print" } else { "term" };
             let key = format!("R|{}|{}", rk, v.digest);
-            let spec = Some(OneSpec { cfg: v.cfg.clone(), render: Some((rk.into(), vec![])) });
+            let spec = Some(OneSpec { cfg: v.cfg.clone(), tweaks: v.tweaks.to_vec(), render: Some((rk.into(), vec![])) });
             sched::op_begin(sim, id, crash);
             let outcome = render_term_outcome(v.qr, *print);
             sched::op_end(sim, id);
@@ -1002,7 +1196,12 @@ pub fn evaluate_one(spec: &OneSpec) -> Outcome {
         Err(p) => (classify_panic(p), None),
     };
     let Some((kind, setters)) = &spec.render else { return outcome };
-    let Some(qr) = qr else { return Outcome::Skipped };
+    let Some(mut qr) = qr else { return Outcome::Skipped };
+    for (idx, xor) in &spec.tweaks {
+        if let Some(m) = qr.data.get_mut(*idx as usize) {
+            m.0 ^= *xor;
+        }
+    }
     match kind.as_str() {
         "svg" => render_svg_outcome(&svg_builder_from(setters), &qr),
         "png" => render_img_outcome(&img_builder_from(setters), &qr, false),
@@ -1035,7 +1234,7 @@ fn finish_build(
     let died = outcome.is_died();
     {
         let mut o = oracle.lock().unwrap();
-        o.observe_spec(key, &outcome, id, op_index, kind, false, Some(OneSpec { cfg: cfg.clone(), render: None }));
+        o.observe_spec(key, &outcome, id, op_index, kind, false, Some(OneSpec { cfg: cfg.clone(), tweaks: vec![], render: None }));
         match &outcome {
             Outcome::ErrEncodedData => o.stats.probe("err_encoded_data"),
             Outcome::ErrSpecifiedVersion => o.stats.probe("err_specified_version"),
@@ -1049,7 +1248,7 @@ fn finish_build(
         }
     }
     if let (Some(q), Outcome::Ok(d)) = (qr, &outcome) {
-        local.qrs[(out as usize) % N_QR_SLOTS] = Some(LocalQr { qr: Box::new(q), digest: d.clone(), cfg: cfg.clone() });
+        local.qrs[(out as usize) % N_QR_SLOTS] = Some(LocalQr { qr: Box::new(q), tweaks: vec![], digest: d.clone(), cfg: cfg.clone() });
     }
     died
 }
